@@ -176,3 +176,16 @@ k2("c09_slicing_bounds_full_domain_len3", ["C09"], "bounded",
 k2("c09_to_bound_is_identity_above_min", ["C09"], "complete",
    "Slicing::to_bound is the identity except that i64::MIN becomes -isize::MAX (never isize::MIN, which slyce would negate)",
    domain="all i in i64", inputs=("i64",), probe="slice", functions=["Slicing::to_bound"])
+
+_MODEL = ["C04", "C07", "C08", "C09", "C12", "C19"]
+k("model_enum_as_inner_accessors", _MODEL, "complete",
+  "the prelude's model of the enum-as-inner accessors (into_int/into_bool/into_mut/into_tuple/into_function: Ok(payload) on the "
+  "matching variant, Err(the value itself) otherwise) agrees with the generated code", domain="all a in i64, b in bool",
+  inputs=("i64", "bool"), functions=["Variable::into_* (enum-as-inner)"])
+k("model_from_impls", _MODEL, "complete",
+  "the prelude's model of the derive_more From impls (Variable from i64/bool/f64, Instruction from BinOperation/Variable, "
+  "ExecStop from ExecError) agrees with the generated code", domain="all a in i64, b in bool, f in f64",
+  inputs=("i64", "bool", "f64"), functions=["From impls (derive_more)"])
+k("model_std_wrapping_contracts", ["C08"], "complete",
+  "decidable part of the assumed std contracts: wrapping_neg against 128-bit arithmetic; wrapping_div/rem for b in {1,-1} and "
+  "their sign rules", domain=ALLI, inputs=I2, functions=["i64::wrapping_neg", "i64::wrapping_div", "i64::wrapping_rem"])
